@@ -527,6 +527,8 @@ pub struct Feat {
     pub div: bool,
     /// logic operators on arbitrary (possibly negative) operands
     pub raw_logic: bool,
+    /// closure-valued variables used as values (aliases, arguments), not only called
+    pub closure_alias: bool,
     /// delay times outside 1..n-1 (0, negative, >= n, fractional beyond the end): the statement
     /// of C02 leaves their meaning open, the back ends must still agree with each other
     pub hostile_delay_time: bool,
@@ -577,6 +579,7 @@ impl Feat {
             pow: true,
             div: true,
             raw_logic: false,
+            closure_alias: true,
             hostile_delay_time: false,
             branch_state: false,
             globals: true,
@@ -828,6 +831,7 @@ impl<'a> Gen<'a> {
                         .map(|v| v.0.clone())
                         // globals are named gN: with the quarantine they are only called, never used as values
                         .filter(|n| !(no_globals && n.starts_with('g')))
+                        .filter(|_| self.feat.closure_alias)
                         .collect::<Vec<_>>()
                 };
                 self.pure_only += arg_pure as u32;
